@@ -337,6 +337,12 @@ func runGraph(sc *gScen) *gRun {
 	}
 	res.boot = append(res.boot, res.rowOf[framework_helper.GetComponentName(obs)])
 	{
+		// ordered user post-processors (T22, Order() = 100 + node index): after the observing one, in Order() sequence
+		for i, n := range res.nodesObj {
+			if _, ok := n.(*T22); ok {
+				res.boot = append(res.boot, i)
+			}
+		}
 		var plain []int
 		for i, n := range res.nodesObj {
 			if _, ok := n.(*T18); ok {
